@@ -577,3 +577,84 @@ _install_l1 = install
 
 def install(lib):
     return _install_l1(lib) + [AddLinksCallee(), LinkWrapper("add_outlinks", True), LinkWrapper("add_inlinks", False)]
+
+
+# ---------------------------------------------------------------------------- get_potential_prefix (C06: same max(E, K), nothing written)
+EPRE = z3.Const("E_prefix", BYTES)
+
+
+class FollowLruCallee(Contract):
+    """LRUTrie.follow_lru as seen by get_potential_prefix: a walk history (contract in
+    contracts/trie.py: deepest webentity, its prefix and position, the rule anchors)"""
+
+    qual = "LRUTrie.follow_lru"
+
+    def apply(self, ex, p, recv, args, kw, ln):
+        q = p.fork()
+        rules = q.new_obj("list", {"len": NRULES, "elem": lambda i: RULEPOS(i)})
+        hist = q.new_obj("LRUTrieWalkHistory", {"lru": HLRU, "webentity_position": q.w["__E"], "webentity_prefix": EPRE, "page_was_created": False, "webentity_creation_rules": rules})
+        q.w["__followed"] = to_z3(args[0])
+        node = q.new_obj("LRUTrieNode", {"__abstract": True})
+        q.mut += 1
+        return [(q, (Opt(fresh("no_node", BOOL), node), hist))]
+
+
+class PotentialPrefix(Contract):
+    """Traph.get_potential_prefix(lru): with K, E as for the ladder - the existing prefix
+    when len(K) <= E, else K when some rule proposes, else the default proposal, else
+    False; no page is added, no webentity created, nothing refreshed or written (the
+    only trie access is follow_lru)."""
+
+    qual = "Traph.get_potential_prefix"
+
+    def setups(self, ex):
+        p = Path()
+        for ax in best_axioms():
+            p.assume(ax)
+        j = z3.Int("j")
+        p.assume(NRULES >= 0)
+        p.assume(z3.ForAll([j], z3.Implies(z3.And(j >= 0, j < NRULES), z3.And(RULEPOS(j) >= 0, RULEPOS(j) <= blen(HLRU)))))
+        p.w["__E"] = fresh("E", INT)
+        p.assume(p.w["__E"] >= -1)
+        p.w["__created_n"] = z3.IntVal(0)
+        p.w["__default_n"] = z3.IntVal(0)
+        p.w["__default_arg"] = fresh("nothing_asked", BYTES)
+        p.w["__refreshed_at"] = z3.IntVal(-1)
+        p.w["__refreshed_node"] = ""
+        p.w["__followed"] = None
+        trie = p.new_obj("LRUTrie", {})
+        t = p.new_obj("Traph", {"lru_trie": trie, "encoding": "utf-8"})
+        yield p, t, [LRU], {}, "any"
+
+    def check(self, ex, p0, res, tag):
+        n, E = NRULES, p0.w["__E"]
+        klen = LBEST(n)
+        dflt = z3.And(DEFAULT_MATCHES(LRU), blen(DEFAULT_MATCH(LRU)) > 0)
+        for p1, kind, val in res:
+            if kind == "raise":
+                ex.oblige(p1, "raises-nothing(%s)" % val[0], False, val[1])
+                continue
+            ex.oblige(p1, "looks-the-lru-up-read-only", z3.BoolVal(p1.w["__followed"] is not None) if p1.w["__followed"] is None else p1.w["__followed"] == LRU, None)
+            ex.oblige(p1, "creates-nothing-and-refreshes-nothing", z3.And(p1.w["__created_n"] == 0, p1.w["__refreshed_at"] == -1), None)
+            ex.oblige(p1, "default-rule-consulted<=>no-proposal-and-no-webentity", p1.w["__default_n"] == z3.If(z3.And(klen == 0, E < 0), 1, 0), None)
+            # the answer
+            if isinstance(val, Opt):
+                none, v = to_z3(val.none), val.val
+            else:
+                none, v = z3.BoolVal(val is None), val
+            if v is False or v is None:
+                ex.oblige(p1, "answers-False=>neither-webentity-nor-proposal-nor-default", z3.And(klen == 0, E < 0, z3.Not(dflt)), None)
+                continue
+            vz = to_z3(v)
+            ex.oblige(p1, "answer-is-never-None", z3.Not(none), None)
+            ex.oblige(p1, "answer==existing-prefix-when-K-is-not-longer", z3.Implies(klen <= E, vz == EPRE), None)
+            ex.oblige(p1, "answer==K-when-K-is-longer", z3.Implies(z3.And(klen > E, klen > 0), z3.And(BEST(n) >= 0, vz == cand(BEST(n)))), None)
+            ex.oblige(p1, "answer==default-proposal-when-nothing-else", z3.Implies(z3.And(klen > E, klen == 0), z3.And(dflt, vz == DEFAULT_MATCH(LRU))), None)
+
+
+_install_l2 = install
+
+
+def install(lib):
+    lib.loop_spec("Traph.get_potential_prefix::for#0", LoopSpec(ladder_inv, havoc=ladder_havoc))
+    return _install_l2(lib) + [FollowLruCallee(), PotentialPrefix()]
